@@ -939,8 +939,9 @@ theorem scan_pass (h0 : List Str) (raws more : List Bytes) (hnb : ∀ r ∈ raws
     · simp only [hb, if_true]
       rw [ih']
       simp [shown, hb]
-    · simp only [hb, hr]
-      rw [ih']
-      simp [shown, hb, List.append_assoc]
+    · have e : shown (r :: raws) = lineText r :: shown raws := by simp [shown, hb]
+      simp only [hb, hr]
+      rw [e, ih' (h0 ++ [lineText r])]
+      simp
 
 end SshAudit.Banner
